@@ -48,9 +48,17 @@ impl AstCache {
             let path = entry.path();
 
             if path.is_file() && path.extension().is_some_and(|ext| ext == "rs") {
-                // Skip target directory and other build artifacts
-                if path.to_string_lossy().contains("/target/")
-                    || path.to_string_lossy().contains("/.git/")
+                // Skip target directory and other build artifacts. Only the part of the path
+                // below the project root counts: the project itself may live under a
+                // directory called "target" or ".git".
+                let relative_path = path.strip_prefix(project_path).unwrap_or(path);
+                if relative_path
+                    .parent()
+                    .into_iter()
+                    .flat_map(|dir| dir.components())
+                    .any(|component| {
+                        component.as_os_str() == "target" || component.as_os_str() == ".git"
+                    })
                 {
                     continue;
                 }
